@@ -62,6 +62,29 @@ func init() {
 		}
 		return strings.Contains(m.Why, "Incorrect or wrong number of arguments") && !strings.Contains(m.Why, "model (err")
 	}
+	// SET/GETEX ... EXAT T: the stored deadline carries the nanoseconds of the current time
+	signatures["exat-deadline-nanoseconds"] = func(m *Mismatch, args [][]byte) bool {
+		// the deviation shows in a later PEXPIRETIME/PTTL/TTL read of a key that was given an EXAT deadline
+		if len(args) < 2 {
+			return false
+		}
+		name := strings.ToLower(string(args[0]))
+		if name != "pexpiretime" && name != "pttl" && name != "ttl" && name != "expiretime" {
+			return false
+		}
+		usedExat := false
+		for _, o := range m.History.Ops[:m.Index] {
+			a := o.bytesArgs()
+			if len(a) > 3 && (strings.EqualFold(string(a[0]), "set") || strings.EqualFold(string(a[0]), "getex")) && string(a[1]) == string(args[1]) {
+				for _, x := range a[2:] {
+					if strings.EqualFold(string(x), "EXAT") {
+						usedExat = true
+					}
+				}
+			}
+		}
+		return usedExat && strings.Contains(m.Why, "clock-dependent integer off by")
+	}
 	// BITFIELD_RO with more than one GET is rejected by the argument parser.
 	signatures["bitfield-ro-multi-get"] = func(m *Mismatch, args [][]byte) bool {
 		if len(args) < 8 || strings.ToLower(string(args[0])) != "bitfield_ro" {
